@@ -25,6 +25,12 @@ func Compile(root *Module) error {
 type compiler struct {
 	root *Module
 	pool map[HasDefinitions]struct{}
+
+	// modules whose identities have been compiled, imports may be circular
+	imported map[*Module]struct{}
+
+	// typedefs being compiled, to detect typedefs that are defined by themselves
+	typedefs map[*Typedef]struct{}
 }
 
 func (c *compiler) module(y *Module) error {
@@ -55,6 +61,13 @@ func (c *compiler) module(y *Module) error {
 }
 
 func (c *compiler) compileImport(m *Module) error {
+	if _, seen := c.imported[m]; seen {
+		return nil
+	}
+	if c.imported == nil {
+		c.imported = make(map[*Module]struct{})
+	}
+	c.imported[m] = struct{}{}
 	for _, i := range m.identities {
 		if err := c.compile(i); err != nil {
 			return err
@@ -399,6 +412,14 @@ func (c *compiler) findTypedef(y *Type, parent Definition, qualifiedIdent string
 	}
 
 	// this will recurse if typedef references another typedef
+	if _, circular := c.typedefs[found]; circular {
+		return nil, errors.New(SchemaPath(parent) + " - typedef " + y.ident + " is defined by itself")
+	}
+	if c.typedefs == nil {
+		c.typedefs = make(map[*Typedef]struct{})
+	}
+	c.typedefs[found] = struct{}{}
+	defer delete(c.typedefs, found)
 	if err := c.compile(found); err != nil {
 		return nil, err
 	}
